@@ -65,7 +65,8 @@ example : stashOk isAsciiAlpha [.node { mkEl "code" with text := some "c d".toLi
 /-- **one `__applyPattern` step conserves the words.**  `pi` is any of the 16 core patterns (backtick, escape, the six
     link/reference patterns, autolink, automail, line break, inline html, entity, not_strong, em_strong, em_strong2 —
     in the domain the link, html and entity patterns never match), `hi` the nested `__handleInline`, assumed to
-    conserve.  The stash only grows, the invariants are kept, and the visible letters of `data` are unchanged: the
+    conserve.  The stash only grows, the raw-HTML stash is untouched, the invariants are kept, and the visible letters
+    of `data` are unchanged: the
     match is replaced by a placeholder whose stash entry shows the same letters in the same order (a code span: the
     code, stripped; an escape: nothing, the escaped character is not a letter; a line break, a lone `*`/`_` run:
     nothing; emphasis: the letters of the groups, delimiters dropped). -/
@@ -74,17 +75,17 @@ theorem C06_pattern_conserves {L : Char → Bool} (hL : LetterClass L) {cfg : Cf
     (hhi : ∀ d pi st d' st', stashOk L st.stash = true → ok L st.stash.length d = true →
       hi d pi st = some (d', st') →
       (∃ e, st'.stash = st.stash ++ e) ∧ stashOk L st'.stash = true ∧ ok L st'.stash.length d' = true ∧
-        lettersF L st'.stash d' = lettersF L st.stash d)
+        lettersF L st'.stash d' = lettersF L st.stash d ∧ st'.html = st.html)
     {st st' : St} {data data' : Str} {pi startIndex startIndex' : Nat} {matched : Bool}
     (hs : stashOk L st.stash = true) (hd : ok L st.stash.length data = true)
     (h : applyPattern cfg hi pi data startIndex st = some (data', matched, startIndex', st')) :
     (∃ e, st'.stash = st.stash ++ e) ∧ stashOk L st'.stash = true ∧ ok L st'.stash.length data' = true ∧
-      lettersF L st'.stash data' = lettersF L st.stash data := by
+      lettersF L st'.stash data' = lettersF L st.stash data ∧ st'.html = st.html := by
   have hhi' : HISpec L hi := fun d pi st d' st' a b c => by
-    obtain ⟨h1, h2, h3, h4⟩ := hhi d pi st d' st' a b c
-    exact ⟨h1, h2, h3, h4⟩
+    obtain ⟨h1, h2, h3, h4, h5⟩ := hhi d pi st d' st' a b c
+    exact ⟨h1, h2, h3, h4, h5⟩
   have c := applyPattern_spec hL hE hhi' hs hd h
-  exact ⟨c.ext, c.sok, c.dok, c.cons⟩
+  exact ⟨c.ext, c.sok, c.dok, c.cons, c.html⟩
 
 /-- **`__handleInline` conserves the words**, whatever the fuel (nesting depth) and the starting pattern index -/
 theorem C06_handleInline_conserves {L : Char → Bool} (hL : LetterClass L) {cfg : Cfg} (hE : EscNotLetter L cfg)
@@ -92,16 +93,16 @@ theorem C06_handleInline_conserves {L : Char → Bool} (hL : LetterClass L) {cfg
     (hs : stashOk L st.stash = true) (hd : ok L st.stash.length data = true)
     (h : handleInline cfg fuel data pi st = some (data', st')) :
     (∃ e, st'.stash = st.stash ++ e) ∧ stashOk L st'.stash = true ∧ ok L st'.stash.length data' = true ∧
-      lettersF L st'.stash data' = lettersF L st.stash data := by
+      lettersF L st'.stash data' = lettersF L st.stash data ∧ st'.html = st.html := by
   have c := handleInline_spec hL hE fuel data pi st data' st' hs hd h
-  exact ⟨c.ext, c.sok, c.dok, c.cons⟩
+  exact ⟨c.ext, c.sok, c.dok, c.cons, c.html⟩
 
 /-- the hypothesis `hhi` of `C06_pattern_conserves` is met by `__handleInline` itself, at every depth -/
 example {L : Char → Bool} (hL : LetterClass L) {cfg : Cfg} (hE : EscNotLetter L cfg) (f : Nat) :
     ∀ d pi st d' st', stashOk L st.stash = true → ok L st.stash.length d = true →
       handleInline cfg f d pi st = some (d', st') →
       (∃ e, st'.stash = st.stash ++ e) ∧ stashOk L st'.stash = true ∧ ok L st'.stash.length d' = true ∧
-        lettersF L st'.stash d' = lettersF L st.stash d :=
+        lettersF L st'.stash d' = lettersF L st.stash d ∧ st'.html = st.html :=
   fun _ _ _ _ _ hs hd h => C06_handleInline_conserves hL hE hs hd h
 
 /-- the same for a source string (no `STX`) and the empty stash: the visible letters of the result are the letters of
@@ -150,15 +151,15 @@ example : field { mkEl "p" with text := none, tail := some "x".toList } true = [
 /-- **the tree walk conserves the words.**  For a document tree of the domain, the letters of the text content of
     the result are the letters of the tree, in order; and no text or tail of the result contains a placeholder any
     more (`nodeOk L 0`: every `STX` left starts an escape token `STX ddd ETX` of a non-letter, which
-    `UnescapeTreeprocessor` turns back into its character).  The second part is the coverage of the stack discipline
+    `UnescapeTreeprocessor` turns back into its character), and the raw-HTML stash is untouched.  The second part is the coverage of the stack discipline
     of `run`: elements taken out of the stash still have placeholders in the texts of their grandchildren, and every
     such element is at or below a path of the stack until it is visited. -/
 theorem C06_run_conserves {L : Char → Bool} (hL : LetterClass L) {cfg : Cfg} (hE : EscNotLetter L cfg)
     {tree tree' : Node} {st : St} {html : List Str} (hclean : treeClean tree = true)
     (h : Inline.run cfg tree html = some (tree', st)) :
-    docLetters L tree' = docLetters L tree ∧ nodeOk L 0 tree' = true := by
-  obtain ⟨_, _, a3, a4⟩ := run_spec hL hE hclean h
-  refine ⟨?_, a4⟩
+    docLetters L tree' = docLetters L tree ∧ nodeOk L 0 tree' = true ∧ st.html = html := by
+  obtain ⟨_, _, a3, a4, _, a6⟩ := run_spec hL hE hclean h
+  refine ⟨?_, a4, a6⟩
   rw [← a3]
   simp only [lettersN, docLetters]
   rw [nodeFlat_of_ok0 _ a4]
@@ -169,7 +170,7 @@ theorem C06_run_conserves_flat {L : Char → Bool} (hL : LetterClass L) {cfg : C
     (h : Inline.run cfg tree html = some (tree', st)) :
     lettersN L st.stash tree' = docLetters L tree ∧ stashOk L st.stash = true ∧
       nodeOk L st.stash.length tree' = true := by
-  obtain ⟨a1, a2, a3, _⟩ := run_spec hL hE hclean h
+  obtain ⟨a1, a2, a3, _, _, _⟩ := run_spec hL hE hclean h
   exact ⟨a3, a1, a2⟩
 
 /-! ### the later tree processors -/
@@ -210,7 +211,7 @@ theorem C06_inline_stage_conserves {L : Char → Bool} (hL : LetterClass L) {cfg
     (bl : List Str) {tree t1 t3 : Node} {st : St} {html : List Str} (hclean : treeClean tree = true)
     (h1 : Inline.run cfg tree html = some (t1, st)) (h3 : unescapeTree (prettify t1 bl) = some t3) :
     docLetters L t3 = docLetters L tree := by
-  obtain ⟨a1, a2⟩ := C06_run_conserves hL hE hclean h1
+  obtain ⟨a1, a2, _⟩ := C06_run_conserves hL hE hclean h1
   rw [C06_treeproc_conserve hL bl a2 h3, a1]
 
 /-! ### why the hypotheses are there (kernel-checked) -/
